@@ -776,10 +776,9 @@ impl History {
             if !did {
                 // nothing selectable while stalled
                 let l0 = &levels[0];
-                let lo = l0.iter().map(|m| m.first_key.clone()).min().unwrap_or_default();
-                let hi = l0.iter().map(|m| m.last_key.clone()).max().unwrap_or_default();
-                let l1_overlap = levels[1].iter().filter(|m| m.first_key <= hi && lo <= m.last_key).count();
-                let explained = l0.len() + l1_overlap > self.cfg.max_files || l0.len() > self.cfg.max_files;
+                let needed = l0_compaction_inputs(&levels);
+                let l1_overlap = needed - l0.len();
+                let explained = needed > self.cfg.max_files;
                 let shape: Vec<usize> = levels.iter().map(|l| l.len()).collect();
                 return Err(v(
                     "C20",
@@ -1792,6 +1791,31 @@ impl History {
         self.check_structure(false)?;
         Ok(())
     }
+}
+
+/// The inputs the level-0 compaction cannot do without: every level-0 file plus the level-1 files
+/// its key range reaches, extended to a fixed point the way `compute_bounds` does (a level-1 file
+/// that is pulled in widens the range).
+pub fn l0_compaction_inputs(levels: &[Vec<SstMetadata>]) -> usize {
+    let l0 = &levels[0];
+    if l0.is_empty() {
+        return 0;
+    }
+    let mut lo = l0.iter().map(|m| m.first_key.clone()).min().unwrap();
+    let mut hi = l0.iter().map(|m| m.last_key.clone()).max().unwrap();
+    let mut n1;
+    loop {
+        let hit: Vec<&SstMetadata> = levels[1].iter().filter(|m| m.first_key <= hi && lo <= m.last_key).collect();
+        n1 = hit.len();
+        let lo2 = hit.iter().map(|m| m.first_key.clone()).min().map(|x| x.min(lo.clone())).unwrap_or(lo.clone());
+        let hi2 = hit.iter().map(|m| m.last_key.clone()).max().map(|x| x.max(hi.clone())).unwrap_or(hi.clone());
+        if lo2 == lo && hi2 == hi {
+            break;
+        }
+        lo = lo2;
+        hi = hi2;
+    }
+    l0.len() + n1
 }
 
 /// Recovery's overlap graph: an edge from the newer to the older of two key-overlapping files, and
